@@ -84,6 +84,19 @@ type emitter struct {
 	// alreadyInitializedTemplatePkgs keeps track of the template packages for
 	// which the initialization code has already been emitted.
 	alreadyInitializedTemplatePkgs map[string]bool
+
+	// alreadyEmittedPkgs maps the packages of a program that have already
+	// been emitted to their functions, variables and init functions, so that
+	// a package imported by two different packages is emitted, and then
+	// initialized, just once.
+	alreadyEmittedPkgs map[*ast.Package]emittedPackage
+}
+
+// emittedPackage contains the values returned by emitPackage.
+type emittedPackage struct {
+	funcs map[string]*runtime.Function
+	vars  map[string]int16
+	inits []*runtime.Function
 }
 
 // newEmitter returns a new emitter with the given type infos, format types,
@@ -97,6 +110,7 @@ func newEmitter(typeInfos map[ast.Node]*typeInfo, formatTypes map[ast.Format]ref
 		alreadyEmittedFuncs:            map[*ast.Func]*runtime.Function{},
 		alreadyInitializedVars:         map[*ast.Identifier]int16{},
 		alreadyInitializedTemplatePkgs: map[string]bool{},
+		alreadyEmittedPkgs:             map[*ast.Package]emittedPackage{},
 	}
 	em.fnStore = newFunctionStore(em)
 	em.varStore = newVarStore(em, indirectVars)
@@ -139,7 +153,7 @@ func (em *emitter) emitPackage(pkg *ast.Package, extendingFile bool, path string
 			// Do not add duplicated init functions.
 			for _, pkgInit := range pkgInits {
 				if !slices.Contains(inits, pkgInit) {
-					inits = append(inits, pkgInits...)
+					inits = append(inits, pkgInit)
 				}
 			}
 		}
@@ -147,6 +161,10 @@ func (em *emitter) emitPackage(pkg *ast.Package, extendingFile bool, path string
 
 	// Package level functions.
 	functions := map[string]*runtime.Function{}
+
+	// importedInits is the number of "init" functions of the imported
+	// packages; they precede the "init" functions of this package.
+	importedInits := len(inits)
 
 	// initToBuild is the index of the next "init" function to build.
 	initToBuild := len(inits)
@@ -262,14 +280,19 @@ func (em *emitter) emitPackage(pkg *ast.Package, extendingFile bool, path string
 			// must be called before executing every other statement of the main
 			// function.
 			if n.Ident.Name == "main" {
-				// First: initialize the package variables.
+				// First: initialize the imported packages, in order.
+				for _, initFunc := range inits[:importedInits] {
+					index := em.fb.addFunction(initFunc)
+					em.fb.emitCallFunc(index, runtime.StackShift{}, nil)
+				}
+				// Second: initialize the package variables.
 				if initVarsFn != nil {
 					iv, _ := em.fnStore.availableScriggoFn(em.pkg, "$initvars")
 					index := em.fb.addFunction(iv) // TODO: check addFunction
 					em.fb.emitCallFunc(index, runtime.StackShift{}, nil)
 				}
-				// Second: call all init functions, in order.
-				for _, initFunc := range inits {
+				// Third: call the init functions of the package, in order.
+				for _, initFunc := range inits[importedInits:] {
 					index := em.fb.addFunction(initFunc)
 					em.fb.emitCallFunc(index, runtime.StackShift{}, nil)
 				}
@@ -288,9 +311,11 @@ func (em *emitter) emitPackage(pkg *ast.Package, extendingFile bool, path string
 	}
 
 	// If this package is imported, initFuncs must contain initVarsFn, that is
-	// processed as a generic "init" function.
+	// processed as a generic "init" function. The package variables are
+	// initialized after the imported packages and before the "init" functions
+	// of the package are called.
 	if initVarsFn != nil {
-		inits = append(inits, initVarsFn)
+		inits = slices.Insert(inits, importedInits, initVarsFn)
 	}
 
 	return functions, vars, inits
